@@ -40,7 +40,7 @@ def plan(rnd, threads, max_nodes, allow_empty=False):
 def gen_scenarios(tier, seed):
     rnd = random.Random(seed * 7919 + 12)
     scs = []
-    n_seq, n_rand, dfs_runs, dfs_bound = {"quick": (12, 60, 400, 2), "thorough": (60, 1500, 20000, 3)}[tier]
+    n_seq, n_rand, dfs_runs, dfs_bound = {"quick": (20, 150, 1000, 2), "thorough": (200, 5000, 60000, 3)}[tier]
     # sequential registration, many orders (inline: the main thread pushes)
     for i in range(n_seq):
         scs.append({"kind": "entrylist", "id": f"el-seq{i}", "inline": True,
